@@ -165,6 +165,23 @@ Section RT.
   Lemma rt_rule c n : RT (FRule c n).
   Proof. unfold RT, md_lines. cbn [tok_of block_lines spell map bare repeat app]. reflexivity. Qed.
 
+  Lemma rt_em c0 pre ch double w post : wf_b (FEm c0 pre ch double w post) = true -> RT (FEm c0 pre ch double w post).
+  Proof.
+    intros Hw. destruct (em_wf _ _ _ _ _ _ Hw) as (Hch & Hew & Hpre & Hpost & _).
+    unfold EmphSimple.emph_word in Hew. repeat rewrite andb_true_iff in Hew. destruct Hew as [[[Hpw _] _] _].
+    assert (R10 : mem 10 (em_run ch double) = false) by (unfold em_run; destruct double, Hch as [->| ->]; reflexivity).
+    unfold RT, md_lines. cbn [tok_of block_lines spell map bare repeat app]. unfold span_to_lines. cbn [fragments_to_lines].
+    assert (EF : flat_map frags (RawText (c0 :: pre) :: (if double then Strong [ch] [RawText w] else Emphasis [ch] [RawText w]) :: EmphSentence.raw_if post) =
+                [Fw (c0 :: pre); F (em_run ch double); Fw w; F (em_run ch double)] ++ match post with [] => [] | _ => [Fw post] end).
+    { unfold em_run. destruct double, post; reflexivity. }
+    rewrite EF. cbn [app plain_from ftext Fw F].
+    rewrite (plain_no 10 _ eq_refl Hpre), R10, (plain_no 10 _ eq_refl Hpw). cbn [app].
+    destruct post as [|z p] eqn:Ep.
+    - cbn [plain_from nonempty]. unfold em_body. rewrite !app_nil_r. cbn [app]. rewrite <- !app_assoc. reflexivity.
+    - rewrite <- Ep in *. cbn [plain_from ftext Fw]. rewrite (plain_no 10 _ eq_refl Hpost). cbn [plain_from]. unfold em_body. cbn [app]. rewrite <- !app_assoc.
+      destruct (nonempty _) eqn:En; [reflexivity|]. exfalso. unfold nonempty in En. cbn in En. discriminate.
+  Qed.
+
   Lemma rt_fence ch n content : wf_b (FFence ch n content) = true -> RT (FFence ch n content).
   Proof.
     intros Hw. destruct (fence_wf ch n content Hw) as ((Hch & Hn) & Hok & _).
@@ -181,8 +198,8 @@ Section RT.
   Lemma rt_all : forall f t, (depth t <= f)%nat -> wf_b t = true -> RT t.
   Proof.
     induction f as [|f IH]; intros t Hd Hw.
-    - destruct t as [c body more|ch n content|ts|mk pad ts|lv hc hb|rc rn]; [apply rt_para; exact Hw|apply rt_fence; assumption|cbn [depth] in Hd; lia|cbn [depth] in Hd; lia|apply rt_head; exact Hw|apply rt_rule].
-    - destruct t as [c body more|ch n content|ts|mk pad ts|lv hc hb|rc rn]; [apply rt_para; exact Hw|apply rt_fence; assumption| | |apply rt_head; exact Hw|apply rt_rule].
+    - destruct t as [c body more|ch n content|ts|mk pad ts|lv hc hb|rc rn|e0 epre ech edbl ew epost]; [apply rt_para; exact Hw|apply rt_fence; assumption|cbn [depth] in Hd; lia|cbn [depth] in Hd; lia|apply rt_head; exact Hw|apply rt_rule|apply rt_em; exact Hw].
+    - destruct t as [c body more|ch n content|ts|mk pad ts|lv hc hb|rc rn|e0 epre ech edbl ew epost]; [apply rt_para; exact Hw|apply rt_fence; assumption| | |apply rt_head; exact Hw|apply rt_rule|apply rt_em; exact Hw].
       + (* quote *)
         cbn [wf_b] in Hw. repeat rewrite andb_true_iff in Hw. destruct Hw as [[Hs Hall] Hg].
         assert (Hch : Forall RT ts).
